@@ -15,5 +15,8 @@ if ! (cd $d && go build ./... 2>&1 | head -5); then echo "mutant does not build"
 /verif/bin/govc check --repo $d --prop $prop --scratch $d/.verif-scratch | grep -v "^KNOWN" | sed "s#$d/##g" | head -${MUT_LINES:-8}
 for r in $(ls $d/.verif-scratch/out/replay/$prop/*.json 2>/dev/null | head -${MUT_LINES:-8}); do python3 -c "
 import json,sys
-j=json.load(open('$r')); print('   ->', j.get('obligation'), '|', j.get('verdict'), '|', (j.get('descr') or j.get('error') or '')[:150])"; done
+j=json.load(open('$r')); print('   ->', j.get('obligation'), '|', j.get('verdict'), '|', (j.get('descr') or j.get('error') or '')[:150])
+r=j.get('replay')
+if isinstance(r,dict): print('      replay:', r.get('inputs'), 'reproduced:', r.get('reproduced_on_real_code'), '|', (r.get('output') or r.get('error') or '').strip().splitlines()[0:2])
+"; done
 rm -rf $d
